@@ -171,8 +171,17 @@ func VerifC18Sample(n int) {
 
 // VerifC18SampleTwice: two consecutive calls on ONE sampler (a sampler lives for a whole generation): the
 // second call is held to the same standard as the first, whatever the first one left behind.
-func VerifC18SampleTwice(n int) {
-	l1, l2 := vfDrawLogits(n), vfDrawLogits(n)
+func VerifC18SampleTwice(n int, concreteFirst int) {
+	var l1 []float32
+	if concreteFirst != 0 {
+		// the first call sees ascending logits 1..n (sorting them permutes the token order)
+		for i := 0; i < n; i++ {
+			l1 = append(l1, float32(i+1))
+		}
+	} else {
+		l1 = vfDrawLogits(n)
+	}
+	l2 := vfDrawLogits(n)
 	s, k := vfArbSampler(n)
 	if _, err := s.Sample(l1); err != nil {
 		return
